@@ -167,6 +167,16 @@ Definition add (s : qstate) (ins outs : list ubuf) (taddr : N) : outcome N * qst
     | _ => (o, s1, evs)
     end.
 
+(* `add` when the platform's heap cannot provide the indirect table: add_indirect starts with
+   `<[Descriptor]>::new_box_zeroed_with_elems(n).unwrap()`, before any share, store or change of private state, so a failed
+   allocation is a panic out of a queue that is exactly as it was.  `alloc_ok` is the allocator's answer (environment);
+   the allocation is only attempted on the indirect path (indirect queue, more than one buffer, capacity test passed). *)
+Definition add_wants_table (s : qstate) (ins outs : list ubuf) : bool :=
+  let n := lenN (tag_bufs ins outs) in
+  negb (n =? 0) && capacity_ok s n && q_indirect s && (1 <? n).
+Definition add_af (s : qstate) (ins outs : list ubuf) (taddr : N) (alloc_ok : bool) : outcome N * qstate * list qev :=
+  if negb alloc_ok && add_wants_table s ins outs then (Panic, s, []) else add s ins outs taddr.
+
 (* ---------- recycle / pop ---------- *)
 Definition unset_buf (d : desc) : desc := mkDesc 0 0 (d_flags d) (d_next d).
 Definition set_next (d : desc) (n : N) : desc := mkDesc (d_addr d) (d_len d) (d_flags d) n.
